@@ -44,6 +44,16 @@ def load_api(only_auth=False):
         return s
     api["sign_sequence"] = sign_sequence
 
+    def sign_edit_sign(payload, seeds1, new_payload, seeds2):
+        s = S.wrap_as_signable(payload)
+        for sd in seeds1:
+            S.sign_signable(s, C.PrivateKey.from_bytes(sd))
+        s["signed"] = new_payload
+        for sd in seeds2:
+            S.sign_signable(s, C.PrivateKey.from_bytes(sd))
+        return s
+    api["sign_edit_sign"] = sign_edit_sign
+
     def sign_all_value(r, keyhex):
         d = tempfile.mkdtemp(prefix="cctw")
         try:
@@ -141,7 +151,7 @@ def load_api(only_auth=False):
 
 
 MUTATORS = {"sign_signable"}
-SCRIBBLE = {"build_delegating_metadata", "build_root_metadata", "wrap_as_signable", "sign_sequence", "sign_all_value"}
+SCRIBBLE = {"build_delegating_metadata", "build_root_metadata", "wrap_as_signable", "sign_sequence", "sign_edit_sign", "sign_all_value"}
 
 
 def scribble(v, depth=0):
